@@ -282,6 +282,16 @@ def check_store(model, rep, sx: SX, tables):
         nstores = 0
         for o in outs:
             if o.kind == 'raise':
+                # a REJECTED in-place conversion must leave the object as it was: a store made before the rejecting check (e.g. the
+                # parent constructor re-run on self before the sub-kind's own sign test) leaves a live object that violates its constraint
+                early = [e for e in o.state.effects if e[0] == 'store' and e[1] == 'self' and e[2].endswith(('__value', '__unit'))]
+                changed = [e for e in early if not (getattr(e[3], 'term', None) is not None and len(e[3].term.n.t) == 1 and e[3].term.d.is_const()
+                                                    and any(a.endswith(('__value', '.value')) for a in e[3].term.atoms())
+                                                    and e[3].term.eq(Rat.atom(next(iter(e[3].term.atoms())))))]
+                if o.value == 'ValueError' and changed:
+                    nstores += 1
+                    bad = (changed[0][4], f'the conversion raises ValueError (line {o.loc}) AFTER it has already stored `{sx.show(changed[0][3])[:60]}` into '
+                                          f'{changed[0][2]}: the rejected call leaves a live {kind} that violates its sign constraint')
                 continue
             stores = [e for e in o.state.effects if e[0] == 'store' and e[1] == 'self' and e[2].endswith('__value')]
             for idx, e in enumerate(stores):
